@@ -11,6 +11,10 @@
 (* redial attempts).  Each step carries what the statement of C13 demands  *)
 (* at that point; "any" where it leaves the outcome open.                  *)
 (*   budget 0 = no redial, n = at most n attempts, 99 = unlimited.         *)
+(* Budget 3 is the "blip" configuration (slow redial interval): the only   *)
+(* fault is a blip, an outage shorter than the budget allows (it needs two *)
+(* of the three attempts); the budget is per loss, so any number of blips  *)
+(* must leave the session healthy.                                         *)
 (***************************************************************************)
 EXTENDS Naturals, Integers, Sequences, FiniteSets, TLC, Json, IOUtils
 CONSTANTS Export, MaxOps, Budgets
@@ -51,7 +55,10 @@ Wait == /\ ~inflight
         /\ quiet' = TRUE
         /\ Rec("wait", IF ended' THEN "ended" ELSE "healthy")
         /\ UNCHANGED <<budget, up, inflight, uid>>
-Next == Call \/ CallLong \/ Collect \/ Cut \/ Down \/ Up \/ SetID \/ Wait
+Blip == /\ budget = 3 /\ ~ended /\ conn = "ok" /\ up /\ quiet /\ conn' = "lost" /\ quiet' = FALSE /\ Rec("blip", "-")
+        /\ UNCHANGED <<budget, up, ended, inflight, uid>>
+Next == IF budget = 3 THEN Blip \/ Wait \/ (quiet /\ Call) \/ SetID
+        ELSE Call \/ CallLong \/ Collect \/ Cut \/ Down \/ Up \/ SetID \/ Wait
 Spec == Init /\ [][Next]_vars
 \* sanity of the expectation model: an ended session never becomes healthy again; without redial every loss ends the session
 EndedStays == [][ended => ended']_vars
